@@ -16,3 +16,6 @@ pub open spec fn first_selected(res: Seq<(String, Option<JsonValue>)>, name: Str
     if res.len() == 0 { None } else if res[0].0 == name { res[0].1 } else { first_selected(res.drop_first(), name) }
 }
 
+
+// the selected values of a row, in selection order (absent values included)
+pub open spec fn res_values(res: Seq<(String, Option<JsonValue>)>) -> Seq<Option<JsonValue>> { Seq::new(res.len(), |i: int| res[i].1) }
